@@ -1,4 +1,7 @@
 import RxProofs.Lemmas.AggC09
+import RxProofs.Lemmas.AggE2E
+import RxProofs.Lemmas.AggComb
+import RxProofs.Lemmas.AggWinGrp
 import RxProofs.C06
 /-!
 # C09 — exceptions raised by user callbacks are delivered as on_error
@@ -235,6 +238,216 @@ theorem contains_raise_end_to_end {α} (v : α) (cmp : α → α → Except Err 
     rw [C06.contains_eq]
     simp only [elems_map_next_append, elems_next, hf]; rfl
   exact ⟨h1, (no_escape_contains v cmp).1 _ _, by rw [stopped_iff_terminated, h1]; rfl⟩
+
+/-! ## the generic end-to-end theorem and its instances for the whole catalogue
+
+`op.DeliversAt lag pre x e` := if the subscriber has not been terminated by `pre`, then for every continuation `post`:
+`op.out lag (pre ++ next x :: post) = op.out lag pre ++ [on_error e]`, nothing escapes, the downstream observer is
+stopped and (prompt disposal) so is the source's.  `pre` is any list of `on_next`s (`hpre`); the hypothesis on the
+callback is stated on the state the (first-stage) handler has after `pre`. -/
+
+/-- **Generic**: (A) `NoEsc` + `RaisesAt` (from the handler-level (B) via `raisesAt_of_handler`, closed under `⨾` via
+`RaisesAt.comp`) ⇒ the end-to-end statement, for any operator. -/
+theorem raise_end_to_end {α β} (op : Op α β) (hA : op.NoEsc) (lag : Bool) (pre post : List (Notif α)) (x : α) (e : Err)
+    (hB : op.RaisesAt lag pre x e) (hlive : noTerm (op.out lag pre)) :
+    op.out lag (pre ++ .next x :: post) = op.out lag pre ++ [.error e]
+    ∧ op.escapes lag (pre ++ .next x :: post) = []
+    ∧ (op.final lag (pre ++ .next x :: post)).down = true
+    ∧ (lag = false → (op.final lag (pre ++ .next x :: post)).up = true) :=
+  Op.raise_end_to_end op hA lag pre post x e hB hlive
+
+/-- **Generic, pipes**: a first stage that `RaisesAt` piped into any stage that forwards errors and terminals -/
+theorem pipe_raise_end_to_end {α β γ} (f : Op α β) (g : Op β γ) (hfA : f.NoEsc) (hgA : g.NoEsc) (hge : g.ErrThrough)
+    (hgt : g.TermProp) (lag : Bool) (pre : List (Notif α)) (x : α) (e : Err) (hB : f.RaisesAt lag pre x e) :
+    (f ⨾ g).DeliversAt lag pre x e :=
+  Op.deliversAt _ (hfA.comp hgA) (hB.comp hge hgt)
+
+section Instances
+variable {α : Type} (lag : Bool) (pre : List (Notif α)) (hpre : ∀ n ∈ pre, n.isTerminal = false) (x : α) (e : Err)
+include hpre
+
+theorem filter_raise_end_to_end (p : α → Except Err Bool) (hx : p x = .error e) : (filterO p).DeliversAt lag pre x e :=
+  Op.deliversAt _ (filterO_noEsc p) (Op.raisesAt_of_handler _ lag pre x e hpre ((no_escape_filter p).2 _ x e hx))
+
+theorem take_while_raise_end_to_end (p : α → Except Err Bool) (incl : Bool)
+    (hrun : ((takeWhileO p incl).final lag pre).s = true) (hx : p x = .error e) : (takeWhileO p incl).DeliversAt lag pre x e :=
+  Op.deliversAt _ (takeWhileO_noEsc p incl)
+    (Op.raisesAt_of_handler _ lag pre x e hpre (by rw [hrun]; exact (no_escape_take_while p incl).2 x e hx))
+
+theorem distinct_key_raise_end_to_end {κ} (key : α → Except Err κ) (cmp : κ → κ → Except Err Bool) (hx : key x = .error e) :
+    (distinctO key cmp).DeliversAt lag pre x e :=
+  Op.deliversAt _ (distinctO_noEsc key cmp) (Op.raisesAt_of_handler _ lag pre x e hpre ((no_escape_distinct key cmp).2.1 _ x e hx))
+
+/-- the comparer raises against some member of the keys seen so far -/
+theorem distinct_comparer_raise_end_to_end {κ} (key : α → Except Err κ) (cmp : κ → κ → Except Err Bool) (k : κ)
+    (hk : key x = .ok k) (hx : memCmp cmp ((distinctO key cmp).final lag pre).s k = .error e) :
+    (distinctO key cmp).DeliversAt lag pre x e :=
+  Op.deliversAt _ (distinctO_noEsc key cmp) (Op.raisesAt_of_handler _ lag pre x e hpre ((no_escape_distinct key cmp).2.2 _ x k e hk hx))
+
+theorem find_raise_end_to_end (p : α → Int → Except Err Bool) (yi : Bool)
+    (hx : p x ((findO p yi).final lag pre).s = .error e) : (findO p yi).DeliversAt lag pre x e :=
+  Op.deliversAt _ (findO_noEsc p yi) (Op.raisesAt_of_handler _ lag pre x e hpre ((no_escape_find p yi).2 _ x e hx))
+
+theorem scan_raise_end_to_end {β} (f : β → α → Except Err β) (seed : Option β) (inj : α → β)
+    (hx : scanProj f seed inj ((scanO f seed inj).final lag pre).s x = .error e) : (scanO f seed inj).DeliversAt lag pre x e :=
+  Op.deliversAt _ (scanO_noEsc f seed inj) (Op.raisesAt_of_handler _ lag pre x e hpre ((no_escape_scan f seed inj).2 _ x e hx))
+
+/-- reduce with or without seed, in the handler-state form (cf. `reduce_raise_end_to_end` for the `foldlM` form) -/
+theorem reduce_state_raise_end_to_end {β} (f : β → α → Except Err β) (seed : Option β) (inj : α → β)
+    (hx : scanProj f seed inj ((scanO f seed inj).final lag pre).s x = .error e) : (reduceO f seed inj).DeliversAt lag pre x e := by
+  have hB := Op.raisesAt_of_handler _ lag pre x e hpre ((no_escape_scan f seed inj).2 _ x e hx)
+  cases seed <;>
+    exact pipe_raise_end_to_end _ _ (scanO_noEsc f _ inj) (lastOrDefaultO_noEsc _) (Op.errThrough_of_fwd _ (lastOrDefaultO_fwd _))
+      (lastOrDefaultO_termProp _) lag pre x e hB
+
+theorem extrema_key_raise_end_to_end {κ} (key : α → Except Err κ) (cmp : κ → κ → Except Err Int) (hx : key x = .error e) :
+    (maxByO key cmp).DeliversAt lag pre x e ∧ (minByO key cmp).DeliversAt lag pre x e ∧
+    (∀ (id' : α → Except Err α) (c : α → α → Except Err Int), id' x = .error e →
+      (extremaByO id' c ⨾ mapO firstOnly).DeliversAt lag pre x e) :=
+  ⟨Op.deliversAt _ (extremaByO_noEsc key cmp) (Op.raisesAt_of_handler _ lag pre x e hpre ((no_escape_extrema key cmp).2.1 _ x e hx)),
+   Op.deliversAt _ (extremaByO_noEsc key _) (Op.raisesAt_of_handler _ lag pre x e hpre ((no_escape_extrema key _).2.1 _ x e hx)),
+   fun id' c h => pipe_raise_end_to_end _ _ (extremaByO_noEsc id' c) (mapO_noEsc _) (Op.errThrough_of_fwd _ (mapO_fwd _))
+     (mapO_termProp _) lag pre x e (Op.raisesAt_of_handler _ lag pre x e hpre ((no_escape_extrema id' c).2.1 _ x e h))⟩
+
+/-- the comparer raises when the new key is compared with the current extremum `lk` (max_by; min_by is `extremaByO` with the
+negated comparer; `min`/`max` pipe it into `map(first_only)`) -/
+theorem extrema_comparer_raise_end_to_end {κ} (key : α → Except Err κ) (cmp : κ → κ → Except Err Int) (k lk : κ) (items : List α)
+    (hst : ((extremaByO key cmp).final lag pre).s = (some lk, items)) (hk : key x = .ok k) (hx : cmp k lk = .error e) :
+    (extremaByO key cmp).DeliversAt lag pre x e ∧ (extremaByO key cmp ⨾ mapO firstOnly).DeliversAt lag pre x e := by
+  have hB := Op.raisesAt_of_handler (extremaByO key cmp) lag pre x e hpre
+    (by rw [hst]; exact (no_escape_extrema key cmp).2.2 items lk x k e hk hx)
+  exact ⟨Op.deliversAt _ (extremaByO_noEsc key cmp) hB,
+    pipe_raise_end_to_end _ _ (extremaByO_noEsc key cmp) (mapO_noEsc _) (Op.errThrough_of_fwd _ (mapO_fwd _)) (mapO_termProp _) lag pre x e hB⟩
+
+theorem to_dict_raise_end_to_end {κ ν} (eq : κ → κ → Bool) (key : α → Except Err κ) (elem : α → Except Err ν)
+    (hx : key x = .error e ∨ ∃ k, key x = .ok k ∧ elem x = .error e) : (toDictO eq key elem).DeliversAt lag pre x e := by
+  refine Op.deliversAt _ (toDictO_noEsc eq key elem) (Op.raisesAt_of_handler _ lag pre x e hpre ?_)
+  rcases hx with h | ⟨k, h1, h2⟩
+  · exact (no_escape_to_dict eq key elem).2.1 _ x e h
+  · exact (no_escape_to_dict eq key elem).2.2 _ x k e h1 h2
+
+/-- every predicate form of the family: the predicate raises at `x` -/
+theorem predicate_forms_raise_end_to_end (p : α → Except Err Bool) (d : α) (hx : p x = .error e) :
+    (countO (some p)).DeliversAt lag pre x e ∧ (firstO (some p)).DeliversAt lag pre x e ∧ (lastO (some p)).DeliversAt lag pre x e
+    ∧ (singleO (some p)).DeliversAt lag pre x e ∧ (firstOrDefaultPO (some p) d).DeliversAt lag pre x e
+    ∧ (lastOrDefaultPO (some p) d).DeliversAt lag pre x e ∧ (singleOrDefaultPO (some p) d).DeliversAt lag pre x e
+    ∧ (someO (some p)).DeliversAt lag pre x e := by
+  have hB := Op.raisesAt_of_handler (filterO p) lag pre x e hpre ((no_escape_filter p).2 _ x e hx)
+  have hf := filterO_noEsc p
+  refine ⟨?_, ?_, ?_, ?_, ?_, ?_, ?_, ?_⟩
+  · exact pipe_raise_end_to_end _ _ hf (reduceO_noEsc _ _ _) (reduceO_errThrough _ _ _) (reduceO_termProp _ _ _) lag pre x e hB
+  · exact pipe_raise_end_to_end _ _ hf (firstOrDefaultO_noEsc _) (Op.errThrough_of_fwd _ (firstOrDefaultO_fwd _)) (firstOrDefaultO_termProp _) lag pre x e hB
+  · exact pipe_raise_end_to_end _ _ hf (lastOrDefaultO_noEsc _) (Op.errThrough_of_fwd _ (lastOrDefaultO_fwd _)) (lastOrDefaultO_termProp _) lag pre x e hB
+  · exact pipe_raise_end_to_end _ _ hf (singleOrDefaultO_noEsc _) (Op.errThrough_of_fwd _ (singleOrDefaultO_fwd _)) (singleOrDefaultO_termProp _) lag pre x e hB
+  · exact pipe_raise_end_to_end _ _ hf (firstOrDefaultO_noEsc _) (Op.errThrough_of_fwd _ (firstOrDefaultO_fwd _)) (firstOrDefaultO_termProp _) lag pre x e hB
+  · exact pipe_raise_end_to_end _ _ hf (lastOrDefaultO_noEsc _) (Op.errThrough_of_fwd _ (lastOrDefaultO_fwd _)) (lastOrDefaultO_termProp _) lag pre x e hB
+  · exact pipe_raise_end_to_end _ _ hf (singleOrDefaultO_noEsc _) (Op.errThrough_of_fwd _ (singleOrDefaultO_fwd _)) (singleOrDefaultO_termProp _) lag pre x e hB
+  · exact pipe_raise_end_to_end _ _ hf someOp_noEsc (Op.errThrough_of_fwd _ someOp_fwd) someOp_termProp lag pre x e hB
+
+/-- `all(pred)` = `filter(not pred) | some() | map(not)`: two pipes -/
+theorem all_raise_end_to_end (p : α → Except Err Bool) (hx : p x = .error e) : (allO p).DeliversAt lag pre x e := by
+  have hB := Op.raisesAt_of_handler (filterO (fun v => (p v).map (fun b => !b))) lag pre x e hpre
+    ((no_escape_filter _).2 _ x e (by simp [hx, Except.map]))
+  have h1 := hB.comp (Op.errThrough_of_fwd _ (someOp_fwd (α := α))) someOp_termProp
+  exact Op.deliversAt _ (((filterO_noEsc _).comp someOp_noEsc).comp (mapO_noEsc _))
+    (h1.comp (Op.errThrough_of_fwd _ (mapO_fwd _)) (mapO_termProp _))
+
+/-- `contains(value, comparer)` = `filter(comparer(·, value)) | some()` -/
+theorem contains_pipe_raise_end_to_end (v : α) (cmp : α → α → Except Err Bool) (hx : cmp x v = .error e) :
+    (containsO v cmp).DeliversAt lag pre x e :=
+  pipe_raise_end_to_end _ _ (filterO_noEsc _) someOp_noEsc (Op.errThrough_of_fwd _ someOp_fwd) someOp_termProp lag pre x e
+    (Op.raisesAt_of_handler (filterO (fun y => cmp y v)) lag pre x e hpre ((no_escape_filter _).2 _ x e hx))
+
+/-- key-mapper forms: `sum(key)`, `average(key)` (three pipes) -/
+theorem key_forms_raise_end_to_end {β} (key : α → Except Err β) (add : β → β → Except Err β) (zero : β)
+    (keyI : α → Except Err Int) (hx : key x = .error e) (hxI : keyI x = .error e) :
+    (sumByO key add zero).DeliversAt lag pre x e ∧ (averageO keyI).DeliversAt lag pre x e := by
+  constructor
+  · exact pipe_raise_end_to_end _ _ (mapO_noEsc key) (reduceO_noEsc _ _ _) (reduceO_errThrough _ _ _) (reduceO_termProp _ _ _) lag pre x e
+      (Op.raisesAt_of_handler (mapO key) lag pre x e hpre ((no_escape_map key).2 _ x e hx))
+  · have hB := Op.raisesAt_of_handler (mapO keyI) lag pre x e hpre ((no_escape_map keyI).2 _ x e hxI)
+    have h1 := hB.comp (Op.errThrough_of_fwd _ (scanO_fwd avgAcc (some (0, 0)) (fun c => (c, 1)))) (scanO_termProp _ _ _)
+    have h2 := h1.comp (Op.errThrough_of_fwd _ (lastOrDefaultO_fwd none)) (lastOrDefaultO_termProp _)
+    exact Op.deliversAt _ ((((mapO_noEsc keyI).comp (scanO_noEsc _ _ _)).comp (lastOrDefaultO_noEsc _)).comp (mapO_noEsc _))
+      (h2.comp (Op.errThrough_of_fwd _ (mapO_fwd avgMapper)) (mapO_termProp _))
+
+end Instances
+
+/-! ## multi-source / higher-order operators: the `comb` family's trace machines (`RxModel/Comb*.lean`)
+
+A handler of these machines returns actions, it cannot raise into its emitter; the callback-raise paths are:
+the projection of flat_map / concat_map / switch_map (`map` turns the exception into the outer source's `on_error` —
+`no_escape_map` — which is the event below), the handler of `catch`, the source factories / iterators of
+on_error_resume_next, concat, catch, while_do, for_in (`Item.raise`). -/
+
+/-- generic: a live source's handler answering `[on_error e]` to a non-terminated subscriber (`Comb.DeliveredAt`:
+exactly `emit (error e)` then the unsubscription of every live source in container order; machine stopped, nothing live;
+no later event ever emits) -/
+theorem comb_raise_delivered {σ ι β} (m : Comb.Machine σ ι β) (st : Comb.St σ) (k : Nat) (n : Notif ι) (e : Err) (s' : σ)
+    (hk : k ∈ st.p.live) (hd : st.p.done = false) (hh : m.handler st.s k n = (s', [Comb.Act.emit (.error e)])) :
+    Comb.DeliveredAt m st (.src k n) e :=
+  Comb.raise_delivered_src m st k n e s' hk hd hh
+
+/-- **flat_map / concat_map (merge(max_concurrent)) / switch_map — raising projection**: delivered as `on_error`, the outer
+and every live inner subscription are closed (container order), the machine is stopped, nothing is emitted afterwards. -/
+theorem no_escape_projection {α} (e : Err) :
+    (∀ (st : Comb.St Comb.MaSt), 0 ∈ st.p.live → st.p.done = false →
+      Comb.DeliveredAt (Comb.maM (α := α)) st (.src 0 (.error e)) e)
+    ∧ (∀ (maxc : Nat) (st : Comb.St Comb.McSt), 0 ∈ st.p.live → st.p.done = false →
+      Comb.DeliveredAt (Comb.mcM (α := α) maxc) st (.src 0 (.error e)) e)
+    ∧ (∀ (st : Comb.St Comb.SwSt), 0 ∈ st.p.live → st.p.done = false →
+      Comb.DeliveredAt (Comb.swM (α := α)) st (.src 0 (.error e)) e) :=
+  ⟨fun st hk hd => Comb.raise_delivered_src _ st 0 _ e st.s hk hd rfl,
+   fun maxc st hk hd => Comb.raise_delivered_src _ st 0 _ e st.s hk hd rfl,
+   fun st hk hd => Comb.raise_delivered_src _ st 0 _ e st.s hk hd (by simp [Comb.swM, Comb.swHandler])⟩
+
+/-- **catch(handler) — raising handler**: the source fails with `e0`, the handler raises `ex` ⇒ `on_error ex` -/
+theorem no_escape_catch_handler {α} (e0 ex : Err) (st : Comb.St Comb.ChSt) (hk : 0 ∈ st.p.live) (hd : st.p.done = false) :
+    Comb.DeliveredAt (Comb.chM (α := α) (.error ex)) st (.src 0 (.error e0)) ex :=
+  Comb.raise_delivered_src _ st 0 _ ex st.s hk hd (by simp [Comb.chM, Comb.chHandler])
+
+/-- **on_error_resume_next (as repaired) / concat / catch / while_do / for_in — raising source factory, iterator, condition or
+mapper** (`Item.raise e` at the scheduled action): `on_error e`, everything closed, stopped. -/
+theorem no_escape_seq_factory {α} (kind : Comb.SeqKind) (items : Nat → Comb.Item) (e : Err) (st : Comb.St Comb.SeqSt)
+    (hp : st.s.pending = true) (hi : items st.s.idx = .raise e) (hd : st.p.done = false) :
+    Comb.DeliveredAt (Comb.seqM (α := α) kind items) st .tick e :=
+  Comb.raise_delivered_tick _ st e { st.s with pending := false } hd (by simp [Comb.seqM, Comb.seqTick, hp, hi])
+
+example : Comb.emits (Comb.run (Comb.seqM (α := Nat) .oern (fun j => if j = 0 then .src else .raise "factory")) Comb.seqInit
+    [.tick, .src 0 (.next 1), .src 0 (.error "x"), .tick, .tick, .src 1 (.next 2)]) = [.next 1, .error "factory"] := by decide
+
+/-! ## group_by_until / group_by: the `win` family's machine (`RxModel/WinGrp.lean`) -/
+
+/-- **every mapper-raise path of `group_by_until` is the failure path `errorAll`** (`for wrt in writers.values():
+wrt.on_error(e); observer.on_error(e)`): key mapper; element mapper; subject factory; duration mapper — for the last one
+the group just created is already in `writers` and is errored with the others. -/
+theorem group_by_until_raise_paths {α κ β} (cfg : WinGrp.Cfg α κ β) (s : WinGrp.St κ β) (x : α) (e : Err) :
+    (cfg.keyMapper x = .error e → WinGrp.srcNext cfg s x = WinGrp.errorAll s e)
+    ∧ (∀ k p, cfg.keyMapper x = .ok k → s.writers.find? (fun p => cfg.keyEq p.1 k) = some p → cfg.elemMapper x = .error e →
+        WinGrp.srcNext cfg s x = WinGrp.errorAll s e)
+    ∧ (∀ k, cfg.keyMapper x = .ok k → s.writers.find? (fun p => cfg.keyEq p.1 k) = none →
+        cfg.subjMapper s.groups.length = .error e → WinGrp.srcNext cfg s x = WinGrp.errorAll s e)
+    ∧ (∀ k, cfg.keyMapper x = .ok k → s.writers.find? (fun p => cfg.keyEq p.1 k) = none →
+        cfg.subjMapper s.groups.length = .ok () → cfg.durMapper s.groups.length = .error e →
+        WinGrp.srcNext cfg s x
+          = WinGrp.errorAll { s with groups := s.groups ++ [{ key := k }], writers := s.writers ++ [(k, s.groups.length)] } e) := by
+  refine ⟨?_, ?_, ?_, ?_⟩
+  · intro h; simp [WinGrp.srcNext, h]
+  · intro k p h1 h2 h3; simp [WinGrp.srcNext, h1, h2, WinGrp.pushElem, h3]
+  · intro k h1 h2 h3; simp [WinGrp.srcNext, h1, h2, h3]
+  · intro k h1 h2 h3 h4; simp [WinGrp.srcNext, h1, h2, h3, h4]
+
+/-- **what that failure path does**: the outer subscriber (not yet terminated) receives `on_error e` and is stopped; the
+writer of **every open group** is stopped with it (so group subscribers get the terminal and release their references);
+nothing escapes to the emitter; no earlier output is lost. -/
+theorem group_by_until_failure_path {κ β} (s : WinGrp.St κ β) (e : Err) (hout : s.outStopped = false)
+    (hw : ∀ p ∈ s.writers, p.2 < s.groups.length) :
+    (WinGrp.errorAll s e).outStopped = true
+    ∧ WinGrp.Eff.outer (.error e) ∈ (WinGrp.errorAll s e).out
+    ∧ (∀ p ∈ s.writers, WinGrp.stoppedAt (WinGrp.errorAll s e) p.2)
+    ∧ WinGrp.escs (WinGrp.errorAll s e) = WinGrp.escs s
+    ∧ (∃ l, (WinGrp.errorAll s e).out = s.out ++ l) :=
+  WinGrp.errorAll_spec s e hout hw
 
 /-! Non-vacuity: raising callbacks at the first / a middle / a late invocation, lagging and prompt. -/
 example : (mapO (fun (x : Nat) => if x = 2 then .error "m" else .ok (x + 10))).out true [.next 1, .next 2, .next 3, .completed]
